@@ -27,7 +27,7 @@ print(f"""You are testing how well a verification effort detects regressions in 
 
 The property (JSON, with anchors into the code): {base}/property.json — read it first, then read the anchored code in {wt}.
 
-{("Earlier seeded changes for this property already exist; yours must use DIFFERENT mechanisms and different code sites than these:" + chr(10) + chr(10).join(used) + chr(10) + chr(10)) if (rnd and used) else ""}{"In this round prefer changes that need an interleaving of concurrent operations, a crash or I/O fault at a particular point, pooled or shared state reused across requests, state carried across a restart, or two cooperating sites that each look fine alone; avoid plain single-function arithmetic slips. " if rnd and int(rnd) >= 4 else ""}{"Also consider: behaviour that only differs under a non-default configuration value, caches or pooled objects that outlive a request, error paths taken after a partial success, and sequences of several requests against one long-lived object. " if rnd and int(rnd) >= 5 else ""}Task: produce TWO different, independent changes to the seq-db source (non-test .go files) that each BREAK this property while the code still compiles and the existing test suite still passes. Each change must need something specific to manifest — a particular interleaving, a crash or fault at a particular point, a multi-step sequence of operations, an unusual input or data shape, or two cooperating sites that each look fine alone — NOT something ordinary use or the existing tests would expose at once. Make them realistic: the kind of small slip a maintainer could make in a refactoring, optimisation or bug fix (off-by-one at a boundary, a comparison flipped for an edge case, a dropped step on a rarely taken path, a swapped order of two operations, a swallowed error, a stale value reused), 1-15 changed lines each, in the mechanisms the property's anchors name. The two changes must hit different mechanisms.
+{("Earlier seeded changes for this property already exist; yours must use DIFFERENT mechanisms and different code sites than these:" + chr(10) + chr(10).join(used) + chr(10) + chr(10)) if (rnd and used) else ""}{"In this round prefer changes that need an interleaving of concurrent operations, a crash or I/O fault at a particular point, pooled or shared state reused across requests, state carried across a restart, or two cooperating sites that each look fine alone; avoid plain single-function arithmetic slips. " if rnd and int(rnd) >= 4 else ""}{"Also consider: behaviour that only differs under a non-default configuration value, caches or pooled objects that outlive a request, error paths taken after a partial success, and sequences of several requests against one long-lived object. " if rnd and int(rnd) >= 5 else ""}{"Further ideas for this round: a limit or capacity constant crossed by exactly one element (block capacities, maximum sizes, buffer lengths); behaviour on the second attempt after an error was returned once (retry and resume paths); two code paths that must answer the same request identically (legacy vs current, active vs sealed, with vs without a hint or cache) drifting apart; cleanup or release steps skipped on an early return. " if rnd and int(rnd) >= 6 else ""}Task: produce TWO different, independent changes to the seq-db source (non-test .go files) that each BREAK this property while the code still compiles and the existing test suite still passes. Each change must need something specific to manifest — a particular interleaving, a crash or fault at a particular point, a multi-step sequence of operations, an unusual input or data shape, or two cooperating sites that each look fine alone — NOT something ordinary use or the existing tests would expose at once. Make them realistic: the kind of small slip a maintainer could make in a refactoring, optimisation or bug fix (off-by-one at a boundary, a comparison flipped for an edge case, a dropped step on a rarely taken path, a swapped order of two operations, a swallowed error, a stale value reused), 1-15 changed lines each, in the mechanisms the property's anchors name. The two changes must hit different mechanisms.
 
 For each change i in {{1,2}} deliver in {base}/out/m<i>/ (i.e. m1 and m2):
   patch.diff   — `git diff` of the source change only (must apply with `git apply` to a clean checkout of the worktree's HEAD)
